@@ -88,7 +88,7 @@ def make_check(kind):
 
 s_pairs = st.fixed_dictionaries({
     "fam": diagram_family(count=2, min_size=0, max_size=8, dup_bias=True),
-    "ea": st.sampled_from(EMPTY_FORMS), "eb": st.sampled_from(EMPTY_FORMS), "as_list": st.booleans()})
+    "ea": st.sampled_from(EMPTY_FORMS), "eb": st.sampled_from(EMPTY_FORMS), "as_list": st.sampled_from([False, False, True, "narrow"])})
 
 _rule = ("0..8 points each; every index of each diagram exactly once, -1 for the diagonal, no (-1,-1) row, third column = cost "
          "recomputed from the INPUT points (L-inf or (d-b)/2; Euclidean or (d-b)/sqrt 2), %s of costs == reported distance == "
